@@ -186,6 +186,9 @@ func (x *Exec) atReturn(st *State, res []Val) {
 	if spec.HasMod {
 		x.frameObligations(st, env)
 	}
+	for _, cs := range spec.Calls {
+		x.checkCallsSpec(st, env, cs)
+	}
 	x.finish(st, "return")
 }
 
@@ -202,7 +205,7 @@ func (x *Exec) frameObligations(st *State, env *Env) {
 	ml := x.resolveModifies(st, x.spec, env.inOld())
 	i := Term{"i!fr", SInt}
 	for _, name := range sortedKeys(st.heap) {
-		if strings.HasPrefix(name, "cell:") || ml.coarse[name] {
+		if strings.HasPrefix(name, "cell:") || ml.coarse[name] || strings.Contains(name, ":fresh:") {
 			continue
 		}
 		if strings.HasPrefix(name, "ghost.") && !x.spec.StrictGhost {
@@ -388,8 +391,20 @@ func (x *Exec) loopEnv(st *State, li *loopInfo, phiVals map[string]Val) *Env {
 	for k, v := range x.params {
 		vars[k] = v
 	}
+	if fr := st.top(); fr != nil && len(st.frames) == 1 {
+		for name, nr := range fr.names {
+			if nr.isAddr {
+				vars["$"+name] = st.load(nr.val)
+			} else {
+				vars["$"+name] = nr.val
+			}
+		}
+	}
 	for k, v := range phiVals {
 		vars[k] = v
+	}
+	for g, t := range st.ghosts {
+		vars[g] = Val{Typ: ghostArrType, C: []Term{t}}
 	}
 	// the iterator of this loop, if any
 	for b := range li.blocks {
@@ -460,6 +475,12 @@ func (x *Exec) loopEnter(st *State, li *loopInfo, from *ssa.BasicBlock) {
 	if ls == nil {
 		unsupp("loop %d of %s has no invariant", li.ord, x.spec.Key)
 	}
+	if st.ghosts == nil {
+		st.ghosts = map[string]Term{}
+	}
+	for _, g := range ls.Ghosts {
+		st.ghosts[g] = st.fresh("ghost_"+g, ArrSort(SInt))
+	}
 	// values the phis take on entry
 	phiVals := map[string]Val{}
 	idx := predIndex(li.header, from)
@@ -527,6 +548,9 @@ func (x *Exec) loopEnter(st *State, li *loopInfo, from *ssa.BasicBlock) {
 		}
 		st.iters[id] = &it
 	}
+	for _, g := range ls.Ghosts {
+		st.ghosts[g] = st.fresh("ghost_"+g, ArrSort(SInt))
+	}
 	phiVals = map[string]Val{}
 	for _, ph := range x.headerPhis(li) {
 		v := st.symbolic(ph.Type(), "phi_"+sanitize(ph.Comment))
@@ -570,6 +594,18 @@ func (x *Exec) loopBackEdge(st *State, li *loopInfo, from *ssa.BasicBlock) {
 			phiVals["$"+ph.Comment] = x.eval(st, ph.Edges[idx])
 		}
 	}
+	uenv := x.loopEnv(st, li, phiVals)
+	for _, gu := range ls.Updates {
+		cur, ok := st.ghosts[gu.Ghost]
+		if !ok {
+			sfail("update of undeclared ghost %s", gu.Ghost)
+		}
+		nv := Store(cur, uenv.eval(gu.Key).T(), uenv.eval(gu.Val).T())
+		if gu.Cond != nil {
+			nv = Ite(uenv.evalBool(gu.Cond), nv, cur)
+		}
+		st.ghosts[gu.Ghost] = nv
+	}
 	env := x.loopEnv(st, li, phiVals)
 	for _, inv := range ls.Invariants {
 		st.oblige(fmt.Sprintf("inv-pres:loop%d/%d", li.ord, inv.N), x.tagsFor(inv.Tags, x.spec.Tags), env.evalBool(inv.X), "loop invariant preserved: "+inv.Text)
@@ -590,4 +626,53 @@ func sameLocks(a, b []HeldLock) bool {
 		}
 	}
 	return true
+}
+
+// checkCallsSpec: the function calls its higher-order parameter exactly as declared.
+func (x *Exec) checkCallsSpec(st *State, env *Env, cs *CallsSpec) {
+	fv, ok := x.params[cs.Param]
+	if !ok {
+		sfail("calls: no parameter %s", cs.Param)
+	}
+	var hits []Event
+	for _, e := range st.events {
+		if e.Kind == "callfn" && len(e.Args) > 0 && e.Args[0].T().S == fv.T().S {
+			hits = append(hits, e)
+		}
+	}
+	cond := TTrue
+	if cs.When != nil {
+		cond = env.inOld().evalBool(cs.When)
+	}
+	name := "ho:" + cs.Param
+	tags := x.spec.Tags
+	if st.eventsInLoop {
+		st.obligeStaticFail(name, tags, "higher-order parameter may be called inside a loop")
+		return
+	}
+	switch len(hits) {
+	case 0:
+		st.oblige(name, tags, Not(cond), "parameter "+cs.Param+" is not called only when the declared condition is false")
+	case 1:
+		cenv := env.child()
+		for i, an := range cs.Args {
+			if i+1 < len(hits[0].Args) {
+				cenv.vars[an] = hits[0].Args[i+1]
+			}
+		}
+		// callback arguments are evaluated in the heap at the time of the call
+		snap := *env.st
+		snap.assumeTo = env.st
+		if env.st.assumeTo != nil {
+			snap.assumeTo = env.st.assumeTo
+		}
+		snap.heap = hits[0].Heap
+		cenv.st = &snap
+		st.oblige(name, tags, cond, "parameter "+cs.Param+" is called only when the declared condition holds")
+		for _, w := range cs.With {
+			st.oblige(fmt.Sprintf("ho:%s/with%d", cs.Param, w.N), x.tagsFor(w.Tags, tags), cenv.evalBool(w.X), "callback argument: "+w.Text)
+		}
+	default:
+		st.obligeStaticFail(name, tags, fmt.Sprintf("parameter %s is called %d times", cs.Param, len(hits)))
+	}
 }
